@@ -28,7 +28,8 @@ CLAIMED = {
               'without a current trace are not reported; the real stdout receives every write unchanged. Tied to /repo by exact '
               'differential correspondence with the real peek_stdout_by_key on all short write sequences and random unicode ones, '
               'plus generated scripts printing from threads and asyncio tasks through the real child against an oracle '
-              '(attribution, whole lines, no debugger text, real stdout complete).'),
+              '(attribution, whole lines, no debugger text, real stdout complete).' 
+              'Also 3–6 real threads writing partial lines at the same time under a 1 µs thread-switch interval through the real trace machinery: what each thread wrote is what is reported for its trace.'),
         design='§6 C13, §5 model K',
         note=COMMON_NOTE + 'Which trace number is current at a write is model D1 (C06); absence of Pdb text in reported output is '
              'checked on real-child runs only (Pdb writes to its private StdInOut stream).',
@@ -44,7 +45,8 @@ CLAIMED = {
               'correspondence and the oracle, not yet by a theorem. Tied to /repo by driving the real registrars through the real hook '
               'caller of a real Nextline object with generated and exhaustive small streams at every kind of prefix (publications '
               'compared per hook call and per key with the compiled model), eager and lazy subscribers attached at random points, and '
-              'recorded real-child runs.'),
+              'recorded real-child runs.' 
+              'Also end to end through the real run session: a simulated child emits a well-formed stream faster than a slow plugin lets the relay deliver it, then exits or is killed with traces and prompts open; at finished the active set is empty, prompt notices match prompt starts, subscribers have terminated (random schedules).'),
         design='§6 C11, §5 model C',
         note=COMMON_NOTE + 'Well-formedness of the child\'s stream is property C09; F2 atomicity of hook implementations is assumed and '
              'exercised. Clauses "prompt open then closed with its command" and "notices match starts" are checked by correspondence + oracle only.',
@@ -73,7 +75,8 @@ CLAIMED = {
               'a command for an unknown trace is dropped and nothing else changes; FIFO order per trace. Tied to /repo by exact correspondence of '
               'the real Prompt plugin, relay_commands thread, PromptFunc counter and Repeater in a real plugin manager with simulated traces, on '
               'all decoy streams of bounded length and seeded random op sequences (phase-synchronised), plus real-child runs with five decoys '
-              'around every genuine answer.'),
+              'around every genuine answer.' 
+              'Also concurrent programs through the real trace machinery in-process with one thread\'s first prompt withheld, every genuine answer surrounded by decoys incl. this prompt\'s number addressed to every other live trace; the command recorded when a prompt closes must be the one addressed to it.'),
         design='§6 C07, §5 model E',
         note=COMMON_NOTE + 'The correspondence samples phase-synchronised schedules (the harness waits for queue quiescence); queue.Queue FIFO/thread-safety is CPython behaviour.',
         technique='Lean 4 invariant proof over label lists + differential correspondence (hand-written model) + real-child decoy runs'),
@@ -87,7 +90,8 @@ CLAIMED = {
               're-raised by close(); the monitor is never stuck; tasks likewise. Tied to /repo by trace acceptance under forced preemption '
               '(sys.monitoring INSTRUCTION events) of the monitor before every bytecode offset of _monitor and of a registering thread before '
               'every offset of register, with another thread registering / ending / close() being called in the gap; TaskDoneCallback under the '
-              'permuting loop; plus an independent oracle.'),
+              'permuting loop; plus an independent oracle.' 
+              'Also one TaskDoneCallback shared by tasks of two threads with their own event loops: thread A parked before every bytecode of _callback while thread B registers / is called back; close() must neither return early nor hang (the model\'s labels are atomic, which is exactly what this validates).'),
         design='§6 C18, §5 model I',
         note=COMMON_NOTE + 'GIL switch points other than the forced ones are whatever CPython produces; registrations after close() are outside the '
              'documented contract. Two defects found and fixed here: F-I1 (lost registration) and F-I2 (exit-check read order).',
@@ -107,19 +111,22 @@ CLAIMED = {
               'uncaught exceptions, threads, asyncio tasks, executor threads; two thirds carrying introspective statements: eagerly evaluated annotations, '
               'namespace listings, exception state, closures, generator finalisation) × statement form {source text, path, callable, code object} × command '
               'policy × trace_threads × trace_modules, run through the child\'s real trace machinery in-process against an untraced reference execution '
-              '(per-thread/task stdout, return value, exception type, innermost line, traceback shape), plus the forms through a real spawn child.'),
+              '(per-thread/task stdout, return value, exception type, innermost line, traceback shape), plus the forms through a real spawn child.' 
+              'Also 3–6 threads printing lines assembled from partial writes at the same time under a 1 µs thread-switch interval, and an exact correspondence of the traceback-cleaning model with the real clean-up on every traceback shape up to 5 (7) frames.'),
         design='§6 C04',
         note=COMMON_NOTE + 'Partial by nature: the quantifier “whatever commands are issued, any script” ranges over CPython\'s semantics under sys.settrace, '
              'which is sampled by the generator, not proved. stderr (CPython\'s RuntimeWarning about inlined comprehensions under a trace function) and '
              'timing are outside the statement. Code-object statements under spawn: open finding F-G1.',
         technique='Lean 4 proof of the traceback-cleaning and pass-through core + differential correspondence against an untraced reference execution'),
     'C03': dict(
-        text=('Theorems over model A: close() never raises in any reachable state; a second close() does nothing; when no run is in progress the first close() returns at once with the broker closed (every earlier subscription terminates, by C08), state closed, no child alive; while a run is in progress close() waits and, whatever else the environment does, returns as soon as the child exits — however it ends — with state closed and no child alive. Tied to /repo by exact correspondence (close issued at every point of every short serial history, from a fresh task each time, subscribers attached before and after start) and an oracle; overlapping calls under the permuting loop (oracle).'),
+        text=('Theorems over model A: close() never raises in any reachable state; a second close() does nothing; when no run is in progress the first close() returns at once with the broker closed (every earlier subscription terminates, by C08), state closed, no child alive; while a run is in progress close() waits and, whatever else the environment does, returns as soon as the child exits — however it ends — with state closed and no child alive. Tied to /repo by exact correspondence (close issued at every point of every short serial history, from a fresh task each time, subscribers attached before and after start) and an oracle; overlapping calls under the permuting loop (oracle).' 
+              'Histories include close() issued k scheduler steps after the child\'s exit (kclose, k = 0…14), i.e. anywhere between the exit of the process and the end of the finish transition.'),
         design='§6 C03',
         note=COMMON_NOTE + 'Theorems are about serial histories (no lifecycle call issued while another is in progress), which is where the property can hold: overlapping calls interfere through transitions\' cancellation of in-flight triggers — known findings F-A2/F-A2c/F-A2d/F-A3 (open), matched by violation kind so that any other misbehaviour under overlap is still reported. transitions/apluggy/asyncio are modelled, not verified.',
         technique='Lean 4 proofs over a deterministic API-level model + generated FSM table (translator) + differential correspondence with a simulated child under a permuting event loop'),
     'C15': dict(
-        text=('Theorems over model A: a child is alive exactly while the state is running; run/reset while running are refused and change nothing; an operation starts at most one child and only when none is alive; once finished is published the child has exited. Tied to /repo by exact correspondence on serial histories with the number of live simulated children sampled after every operation, and overlapping run/run, run/reset, reset/run, run/close under the permuting loop with live children sampled after every scheduler step (oracle).'),
+        text=('Theorems over model A: a child is alive exactly while the state is running; run/reset while running are refused and change nothing; an operation starts at most one child and only when none is alive; once finished is published the child has exited. Tied to /repo by exact correspondence on serial histories with the number of live simulated children sampled after every operation, and overlapping run/run, run/reset, reset/run, run/close under the permuting loop with live children sampled after every scheduler step (oracle).' 
+              'Also real spawn children incl. a script whose process lingers for seconds after the script returned (non-daemon thread): no child process is alive when finished is published.'),
         design='§6 C15',
         note=COMMON_NOTE + 'Theorems are about serial histories (no lifecycle call issued while another is in progress), which is where the property can hold: overlapping calls interfere through transitions\' cancellation of in-flight triggers — known findings F-A2/F-A2c/F-A2d/F-A3 (open), matched by violation kind so that any other misbehaviour under overlap is still reported. transitions/apluggy/asyncio are modelled, not verified.',
         technique='Lean 4 proofs over a deterministic API-level model + generated FSM table (translator) + differential correspondence with a simulated child under a permuting event loop'),
@@ -130,13 +137,15 @@ CLAIMED = {
               'decision table — its worth is the correspondence: the real run_in_process under spawn is swept over every outcome × signal instants from '
               'interpreter boot to racing completion × {log collection, initializer} + a log backlog larger than a pipe buffer, each case in its own '
               'sub-process with a wall-clock bound, checking result, exit code, liveness, leftover tasks, and agreement with the model for the outcome '
-              'class that occurred.'),
+              'class that occurred.' 
+              'Also a function that returns at once while its process takes 4.5 s to exit: awaiting the handle yields only once the process has been reaped.'),
         design='§6 C17, §5 model H',
         note=COMMON_NOTE + 'Partial by nature: reaping, thread clean-up and what the future resolves to for each way of dying are concurrent.futures/'
              'multiprocessing behaviour (modelled in futureOf, observed by the sweep). Defect F-H1 (event loop blocked in executor shutdown) found and fixed here.',
         technique='Lean 4 decision-table proof + real-process outcome/signal sweep compared with the model'),
     'C12': dict(
-        text=('Theorems over model A: every operation extends the hook log by a word of the protocol automaton initialise-run · start-run · in-process events · end-run (state still running, run arguments present) · finished (state finished, arguments withdrawn), each once, for every operation except close() of a run that was initialised but never started (which calls no hook and leaves the arguments in place — the full statement is proved false on start();close() and the exact statement with the automaton state read from the model is proved instead); the whole hook log of every history is accepted; a refused request calls no hook; the run arguments are present in initialized and running and absent in created/finished. Tied to /repo by exact correspondence of the hook log seen by a plugin registered through Nextline.register (sampling Nextline.state and context.run_arg inside each hook) on all short serial histories and random long ones incl. events still in the channel at child exit and callers reacting to the state attribute, plus an oracle (regular expression per run).'),
+        text=('Theorems over model A: every operation extends the hook log by a word of the protocol automaton initialise-run · start-run · in-process events · end-run (state still running, run arguments present) · finished (state finished, arguments withdrawn), each once, for every operation except close() of a run that was initialised but never started (which calls no hook and leaves the arguments in place — the full statement is proved false on start();close() and the exact statement with the automaton state read from the model is proved instead); the whole hook log of every history is accepted; a refused request calls no hook; the run arguments are present in initialized and running and absent in created/finished. Tied to /repo by exact correspondence of the hook log seen by a plugin registered through Nextline.register (sampling Nextline.state and context.run_arg inside each hook) on all short serial histories and random long ones incl. events still in the channel at child exit and callers reacting to the state attribute, plus an oracle (regular expression per run).' 
+              'Histories include a plugin whose on_end_run raises while the child exits (exitx): the run is still finished and its arguments withdrawn.'),
         design='§6 C12',
         note=COMMON_NOTE + 'Theorems are about serial histories (no lifecycle call issued while another is in progress), which is where the property can hold: overlapping calls interfere through transitions\' cancellation of in-flight triggers — known finding F-A2 (open), matched by violation kind. transitions/apluggy/asyncio are modelled, not verified.',
         technique='Lean 4 proofs over a deterministic API-level model + generated FSM table (translator) + differential correspondence with a simulated child under a permuting event loop'),
@@ -196,7 +205,8 @@ CLAIMED = {
               'trace untouched, and its enabledness and output do not depend on the phase of any other trace (an unanswered prompt blocks nobody else). '
               'Tied to /repo by model acceptance of the event streams emitted by the real trace machinery on generated programs with up to 3 threads and '
               '3 tasks (nested, sequential, executor threads), and an oracle using code locations as ground truth for the producing entity, incl. a '
-              'responder that withholds one thread\'s answer until nothing else moves.'),
+              'responder that withholds one thread\'s answer until nothing else moves.' 
+              'Also a stress family (3–6 threads inside the trace machinery at the same time, 1 µs thread-switch interval) and a prompt-text oracle: every location line of a prompt\'s text names a function that trace executes.'),
         design='§6 C06, §5 model D1',
         note=COMMON_NOTE + 'Not exhibited by the model: GIL/OS scheduling and blocking inside multiprocessing.Queue.put — covered only by the runs.',
         technique='Lean 4 invariant/frame proofs over an LTS + trace-acceptance correspondence of real event streams + location-based oracle'),
@@ -209,7 +219,8 @@ CLAIMED = {
               'hidden number-drawing steps none; an exception closes everything open innermost first; every event class carries run_no (generated field '
               'table). Tied to /repo by the deterministic model run on the observed events plus a harness-computed witness for the hidden steps (same '
               'nesting, same numbers) on streams emitted by the real trace machinery in-process on generated programs × policies (step/next/continue/return/until/'
-              'mixes/decoys/non-resuming commands) and by real spawn children with SIGINT at an open prompt (child-side probe), plus a stack-checker oracle.'),
+              'mixes/decoys/non-resuming commands) and by real spawn children with SIGINT at an open prompt (child-side probe), plus a stack-checker oracle.' 
+              'Also the stress family (threads making trace calls at the same time under a 1 µs thread-switch interval): numbers stay unique.'),
         design='§6 C09, §5 model D1',
         note=COMMON_NOTE + 'That CPython invokes the trace function as the model\'s labels say (no nested trace calls within a trace) is assumed and exercised.',
         technique='Lean 4 simulation proof (emitter LTS refines the consumer grammar) + trace-acceptance correspondence of real event streams'),
@@ -221,7 +232,8 @@ CLAIMED = {
               'before run-start was issued every delivery follows run-start (and the premise is shown necessary); the relay never gets stuck once the '
               'child is gone. Tied to /repo by trace acceptance of the real RunSession/relay_events/monitor with a simulated child and channel under the '
               'permuting loop (bursts, slow plugins, exit with backlog, kills keeping 0..all pending items) and by real children printing bursts right '
-              'before exiting (child-side probe log vs recording plugin).'),
+              'before exiting (child-side probe log vs recording plugin).' 
+              'Also a real child that has emitted its whole burst and returned, a slow plugin, and interrupt() while most of the burst is still in the channel: nothing may be lost.'),
         design='§6 C10, §5 model F',
         note=COMMON_NOTE + 'Not exhibited: byte-level truncation of a pickled event; a child dying while holding the queue write lock (open finding F-G3).',
         technique='Lean 4 invariant proof over an LTS + trace-acceptance correspondence under a permuting event loop + real-process bursts'),
